@@ -134,10 +134,53 @@ def judge(ci, data, got):
     return (cls, "MalformedPointError", got)
 
 
-def string_case(rec, data):
+_NOCOF = {}
+
+
+def nocof_curve(ci):
+    """the same curve as a user would declare it WITHOUT the optional
+    cofactor argument of CurveFp (cofactor() is then None): the subgroup test
+    must still be made"""
+    from ecdsa import curves
+    from ecdsa import ellipticcurve as ec
+    k = (ci.p, ci.a, ci.b)
+    if k not in _NOCOF:
+        fp = ec.CurveFp(ci.p, ci.a, ci.b)
+        t = ci.env.toy
+        g = ec.PointJacobi(fp, t.G[0], t.G[1], 1, t.n, generator=True)
+        _NOCOF[k] = curves.Curve("toy-nocof", fp, g,
+                                 (1, 3, 9999, 79, ci.p, ci.a, ci.b))
+    return _NOCOF[k]
+
+
+def string_case(rec, data, nocof=False):
     ci = CurveInfo.get(rec)
-    got = lib_from_string(ci.env.curve, data)
+    got = lib_from_string(nocof_curve(ci) if nocof else ci.env.curve, data)
     return judge(ci, data, got)
+
+
+def shard_nocof(arg):
+    rec, pts = arg
+    ci = CurveInfo.get(rec)
+    l = ci.plen
+    sh = Shard()
+    for P in pts:
+        xb, yb = P[0].to_bytes(l, "big"), P[1].to_bytes(l, "big")
+        for data in (xb + yb, b"\x04" + xb + yb, bytes([2 + (P[1] & 1)]) + xb,
+                     bytes([6 + (P[1] & 1)]) + xb + yb):
+            sh.n += 1
+            if P in ci.sub:
+                sh.nt += 1
+            sh.hist["undeclared-cofactor"] += 1
+            bad = string_case(rec, data, nocof=True)
+            if bad:
+                sh.hist["fail:" + bad[0]] += 1
+                sh.violation("string", bad[0],
+                             dict(rec=rec, data=data, nocof=True),
+                             bad[1], bad[2])
+    sh.sample(dict(curve=[rec["p"], rec["a"], rec["b"]], h=rec["h"],
+                   declared_cofactor=None, points=len(pts)), cap=1)
+    return sh
 
 
 def gen_inputs(ci, part, sub):
@@ -670,7 +713,7 @@ def shard_112r2(arg):
 
 def replay(check, case):
     if check == "string":
-        bad = string_case(case["rec"], case["data"])
+        bad = string_case(case["rec"], case["data"], case.get("nocof", False))
     elif check == "container":
         bad = container_case(case["rec"], case["kind"], case["data"])
     elif check == "cross":
@@ -741,6 +784,9 @@ def main(ctx):
                                                      if P[1] == 0]
         for ch in common.chunks(cpts, 4):
             jobs.append((shard_container, "der-pem-containers", (rec, ch)))
+        if t.h != 1:
+            for ch in common.chunks(pts, 4):
+                jobs.append((shard_nocof, "cofactor-not-declared", (rec, ch)))
         xs = list(range(t.p)) if not ctx.quick else list(range(0, t.p, 4))
         for ch in common.chunks(xs, 4):
             jobs.append((shard_objects, "point-objects", (rec, ch)))
@@ -771,7 +817,9 @@ def main(ctx):
         "points, their off-curve neighbours, aliases and a full grid for "
         "x < 24; all other lengths 0..7; SubjectPublicKeyInfo DER/PEM built "
         "by the reference writer (9 encodings per point, 7 broken wrappers); "
-        "point objects with validation. Oracle: SEC 1 validation with true "
+        "point objects with validation; on the cofactor > 1 curves every curve "
+        "point in 4 encodings again with the cofactor left undeclared "
+        "(CurveFp without its optional argument). Oracle: SEC 1 validation with true "
         "subgroup membership from the full group table; accepted keys must "
         "denote the encoded point; rejection must be MalformedPointError. "
         "Non-trivial = inputs the reference accepts."
